@@ -211,9 +211,8 @@ Proof.
   apply andb_true_iff. split; [reflexivity | apply digits_ascii, print_N_digits].
 Qed.
 
-Ltac codes := unfold parse_error_code, invalid_request_code, method_not_found_code, internal_error_code, invalid_params_code,
-  batches_not_supported_code, too_big_batch_request_code in *.
-Ltac fixed_err := unfold errobj_ok, i32_range; cbn; codes; repeat split; try lia; try reflexivity.
+Ltac i32 := unfold i32_range; cbv; split; [discriminate | reflexivity].
+Ltac fixed_err := split; [i32 | split; [vm_compute; reflexivity | exact I]].
 
 Lemma parse_error_ok : errobj_ok parse_error. Proof. fixed_err. Qed.
 Lemma invalid_request_ok : errobj_ok invalid_request. Proof. fixed_err. Qed.
@@ -221,13 +220,13 @@ Lemma method_not_found_ok : errobj_ok method_not_found. Proof. fixed_err. Qed.
 Lemma internal_err_ok : errobj_ok internal_err. Proof. fixed_err. Qed.
 Lemma batches_not_supported_ok : errobj_ok batches_not_supported. Proof. fixed_err. Qed.
 Lemma too_big_batch_request_ok n : errobj_ok (too_big_batch_request n).
-Proof. unfold errobj_ok, i32_range. cbn. codes. repeat split; try lia. apply exceeded_data_span_ok. Qed.
+Proof. split; [i32 | split; [vm_compute; reflexivity | apply exceeded_data_span_ok]]. Qed.
 Lemma oversized_response_ok n : errobj_ok (oversized_response_error n).
-Proof. unfold errobj_ok, i32_range. cbn. codes. repeat split; try lia. apply exceeded_data_span_ok. Qed.
+Proof. split; [i32 | split; [vm_compute; reflexivity | apply exceeded_data_span_ok]]. Qed.
 Lemma too_big_batch_response_ok n : errobj_ok (too_big_batch_response_error n).
-Proof. unfold errobj_ok, i32_range. cbn. codes. repeat split; try lia. apply exceeded_data_span_ok. Qed.
+Proof. split; [i32 | split; [vm_compute; reflexivity | apply exceeded_data_span_ok]]. Qed.
 Lemma invalid_params_ok d : opt_span_ok d -> errobj_ok (invalid_params d).
-Proof. intro H. unfold errobj_ok, i32_range. cbn. codes. repeat split; try lia. exact H. Qed.
+Proof. intro H. split; [i32 | split; [vm_compute; reflexivity | exact H]]. Qed.
 
 (* the model's own constants agree with C08's *)
 Lemma internal_err_eq : internal_err = RespSize.internal_error. Proof. reflexivity. Qed.
@@ -280,4 +279,942 @@ Lemma handler_payload_ok i hr max : hres_ok hr -> payload_ok (handler_payload i 
 Proof.
   intro H. destruct hr; cbn [handler_payload]; try (apply bounded_ok, hres_payload_ok, H).
   apply internal_err_ok.
+Qed.
+
+(* ====================================================================== *)
+(* sniffing                                                               *)
+(* ====================================================================== *)
+
+(* both sniffers are the same function: this is where a change of one window / byte table shows *)
+Lemma sniff_ws_http b : sniff Ws b = sniff Http b.
+Proof. reflexivity. Qed.
+
+Lemma sniff_go_single wsp sb bb : forall fuel b body,
+  sniff_go wsp sb bb fuel b = Some (true, body) -> beqb sb bb = false -> exists tl, body = sb :: tl.
+Proof.
+  induction fuel as [|f IH]; intros b body H Hne; [discriminate|]. cbn [sniff_go] in H.
+  destruct b as [|c b']; [discriminate|]. destruct (wsp c); [apply (IH _ _ H Hne)|].
+  destruct (beqb c sb) eqn:E1.
+  - inv_some H. apply beqb_true in E1. subst c. eexists. reflexivity.
+  - destruct (beqb c bb); discriminate.
+Qed.
+
+Lemma sniff_go_batch wsp sb bb : forall fuel b body,
+  sniff_go wsp sb bb fuel b = Some (false, body) -> exists tl, body = bb :: tl.
+Proof.
+  induction fuel as [|f IH]; intros b body H; [discriminate|]. cbn [sniff_go] in H.
+  destruct b as [|c b']; [discriminate|]. destruct (wsp c); [apply (IH _ _ H)|].
+  destruct (beqb c sb) eqn:E1; [discriminate|].
+  destruct (beqb c bb) eqn:E2; [|discriminate]. inv_some H. apply beqb_true in E2. subst c. eexists. reflexivity.
+Qed.
+
+Lemma sniff_single t b body : sniff t b = Some (true, body) -> exists tl, body = x7b :: tl.
+Proof. destruct t; intro H; apply (sniff_go_single _ _ _ _ _ _ H); reflexivity. Qed.
+
+Lemma sniff_batch t b body : sniff t b = Some (false, body) -> exists tl, body = x5b :: tl.
+Proof. destruct t; intro H; apply (sniff_go_batch _ _ _ _ _ _ H). Qed.
+
+Lemma sniff_object_text t e : is_object_text e = true -> sniff t e = Some (true, e).
+Proof.
+  destruct e as [|c tl]; [discriminate|]. cbn [is_object_text]. intro H. apply beqb_true in H. subst c.
+  destruct t; reflexivity.
+Qed.
+
+Lemma single_is_object_text t b body : sniff t b = Some (true, body) -> is_object_text body = true.
+Proof. intro H. destruct (sniff_single _ _ _ H) as [tl ->]. reflexivity. Qed.
+
+(* ====================================================================== *)
+(* classification                                                         *)
+(* ====================================================================== *)
+
+Lemma as_request_notification m r :
+  as_request m = Some r -> as_notification m = Some (rq_method r, rq_params r).
+Proof.
+  unfold as_request, as_notification.
+  destruct (field_of k_jsonrpc m) as [|j|]; try discriminate.
+  destruct (field_of k_id m) as [|i|]; try discriminate.
+  destruct (field_of k_method m) as [|me|]; try discriminate.
+  destruct (is_two j); try discriminate.
+  destruct (parse_id i); try discriminate.
+  destruct (as_str me); try discriminate.
+  destruct (opt_field_raw k_params m); try discriminate.
+  intro H. inv_some H. reflexivity.
+Qed.
+
+(* a well-formed notification is a request exactly when it carries exactly one id member in the id domain *)
+Lemma notification_not_request m x :
+  as_notification m = Some x ->
+  (as_request m = None <-> match field_of k_id m with FOne sp => parse_id sp = None | _ => True end).
+Proof.
+  unfold as_request, as_notification.
+  destruct (field_of k_jsonrpc m) as [|j|]; try discriminate.
+  destruct (field_of k_method m) as [|me|]; try discriminate.
+  destruct (is_two j); try discriminate.
+  destruct (as_str me); try discriminate.
+  destruct (opt_field_raw k_params m); try discriminate.
+  intros _. destruct (field_of k_id m) as [|i|]; try (split; intros; [exact I | reflexivity]).
+  destruct (parse_id i); split; intro H; try discriminate H; reflexivity.
+Qed.
+
+Lemma as_invalid_iff m i :
+  as_invalid m = Some i <-> exists sp, field_of k_id m = FOne sp /\ parse_id sp = Some i.
+Proof.
+  unfold as_invalid. destruct (field_of k_id m) as [|sp|]; split.
+  - discriminate.
+  - intros (sp & H & _). discriminate H.
+  - intro H. exists sp. split; [reflexivity | exact H].
+  - intros (sp' & H1 & H2). inversion H1. subst sp'. exact H2.
+  - discriminate.
+  - intros (sp & H & _). discriminate H.
+Qed.
+
+Lemma classify_notif_iff body :
+  classify body = Notif <->
+  exists m, object_members body = Some m /\ as_notification m <> None /\
+    match field_of k_id m with FOne sp => parse_id sp = None | _ => True end.
+Proof.
+  unfold classify. split.
+  - destruct (object_members body) as [m|]; [|discriminate].
+    destruct (as_request m) as [r|] eqn:Er; [discriminate|].
+    destruct (as_notification m) as [x|] eqn:En.
+    + intros _. exists m. split; [reflexivity|]. split; [rewrite En; discriminate|].
+      apply (notification_not_request m x En). exact Er.
+    + destruct (as_invalid m); discriminate.
+  - intros (m & -> & Hn & Hid). destruct (as_notification m) as [x|] eqn:En; [|congruence].
+    rewrite (proj2 (notification_not_request m x En) Hid). reflexivity.
+Qed.
+
+(* ids that were read are well-formed *)
+Lemma parse_id_wf sp i : parse_id sp = Some i -> wf_id i.
+Proof.
+  unfold parse_id. destruct (parse_text sp) as [v|] eqn:E; [|discriminate].
+  unfold parse_text in E. destruct (parse_value (S (length sp)) depth_limit sp) as [[v' r]|] eqn:Ev; [|discriminate].
+  destruct (skip_ws r); [|discriminate]. inv_some E.
+  apply parse_value_wf in Ev as [W _]; [|unfold depth_limit; lia].
+  match goal with H : id_of_json v = Some i |- _ => rename H into Hi end.
+  destruct v as [| |[n|n|l]|s| |]; cbn [id_of_json] in Hi; try discriminate Hi; inv_some Hi; cbn [wf_id].
+  - exact I.
+  - cbn [wf wf_num] in W. apply N.leb_le. exact W.
+  - exact W.
+Qed.
+
+Lemma as_request_wf m r : as_request m = Some r -> wf_id (rq_id r).
+Proof.
+  unfold as_request.
+  destruct (field_of k_jsonrpc m) as [|j|]; try discriminate.
+  destruct (field_of k_id m) as [|i|]; try discriminate.
+  destruct (field_of k_method m) as [|me|]; try discriminate.
+  destruct (is_two j); try discriminate.
+  destruct (parse_id i) as [i'|] eqn:Ei; try discriminate.
+  destruct (as_str me); try discriminate.
+  destruct (opt_field_raw k_params m); try discriminate.
+  intro H. inv_some H. cbn [rq_id]. apply (parse_id_wf _ _ Ei).
+Qed.
+
+Lemma classify_call_wf body r : classify body = Call r -> wf_id (rq_id r).
+Proof.
+  unfold classify. destruct (object_members body) as [m|]; [|discriminate].
+  destruct (as_request m) as [r'|] eqn:E.
+  - intro H. inversion H. subst r'. apply (as_request_wf _ _ E).
+  - destruct (as_notification m); [discriminate|]. destruct (as_invalid m); discriminate.
+Qed.
+
+Lemma classify_invalid_wf body i : classify body = Invalid i -> wf_id i.
+Proof.
+  unfold classify. destruct (object_members body) as [m|]; [|discriminate].
+  destruct (as_request m); [discriminate|]. destruct (as_notification m); [discriminate|].
+  destruct (as_invalid m) as [i'|] eqn:E; [|discriminate]. intro H. inversion H. subst i'.
+  apply as_invalid_iff in E as (sp & _ & E). apply (parse_id_wf _ _ E).
+Qed.
+
+(* ---------- an object text the member scanner accepts is a JSON text for the lenient reader ---------- *)
+
+(* ws* value ws* eof for serde's ignore_value: what "is JSON" means for a message whose members are skipped *)
+Definition lenient_json (s : bytes) : bool :=
+  match skip_value (S (length s)) s with
+  | Some (_, r) => match skip_ws r with [] => true | _ :: _ => false end
+  | None => false
+  end.
+
+Lemma members_loop_skip : forall f s ms r,
+  members_loop f s = Some (ms, r) -> exists g t, skip_members g s = Some (t, r).
+Proof.
+  induction f as [|f IH]; intros s ms r H; [discriminate|].
+  rewrite members_loop_S in H. cbv zeta in H.
+  destruct (skip_ws s) as [|q s1] eqn:Es; [discriminate|].
+  destruct (beqb q x22) eqn:Eq; [|discriminate].
+  destruct (scan_str_valid s1) as [[k r0]|] eqn:Ek; [|discriminate].
+  destruct (skip_ws r0) as [|col r1] eqn:Er0; [discriminate|].
+  destruct (beqb col x3a) eqn:Ec; [|discriminate].
+  destruct (skip_value (S (length (skip_ws r1))) (skip_ws r1)) as [[span r']|] eqn:Ev; [|discriminate].
+  destruct (skip_ws r') as [|c r2] eqn:Er'; [discriminate|].
+  apply scan_str_valid_inv in Ek as [Ek _]. apply scan_str_skip_str in Ek as [k' Ek'].
+  assert (Ev' : skip_value (S (length (skip_ws r1))) r1 = Some (ws_prefix r1 ++ span, r')).
+  { rewrite skip_value_ws, Ev. reflexivity. }
+  destruct (beqb c x2c) eqn:Ecomma.
+  - destruct (members_loop f r2) as [[ms' r3]|] eqn:El; [|discriminate]. inv_some H.
+    destruct (IH _ _ _ El) as (g & t3 & Hg).
+    exists (S (Nat.max (S (length (skip_ws r1))) g)). eexists.
+    rewrite skip_members_S, Es, Eq, Ek', Er0, Ec.
+    rewrite (skip_value_fuel_mono _ (Nat.max (S (length (skip_ws r1))) g) _ _ Ev') by lia.
+    rewrite Er'. cbv zeta. rewrite Ecomma.
+    rewrite (skip_members_fuel_mono _ (Nat.max (S (length (skip_ws r1))) g) _ _ Hg) by lia. reflexivity.
+  - destruct (beqb c x7d) eqn:Eclose; [|discriminate]. inv_some H.
+    exists (S (S (length (skip_ws r1)))). eexists.
+    rewrite skip_members_S, Es, Eq, Ek', Er0, Ec, Ev', Er'. cbv zeta. rewrite Ecomma, Eclose. reflexivity.
+Qed.
+
+Lemma object_members_lenient_json s m : object_members s = Some m -> lenient_json s = true.
+Proof.
+  unfold object_members. intro H.
+  destruct (skip_ws s) as [|c s1] eqn:Es; [discriminate|].
+  destruct (beqb c x7b) eqn:Ec; [|discriminate]. apply beqb_true in Ec. subst c.
+  destruct (skip_ws s1) as [|c2 r] eqn:Es1; [discriminate|].
+  assert (G : exists g t r', skip_value g s = Some (t, r') /\ skip_ws r' = []).
+  { destruct (beqb c2 x7d) eqn:Ec2.
+    - destruct (skip_ws r) eqn:Er; [|discriminate]. exists 1%nat. eexists. exists r.
+      rewrite skip_value_S. cbv zeta. rewrite Es. cbv beta iota.
+      change (beqb x7b x6e) with false. change (beqb x7b x74) with false. change (beqb x7b x66) with false.
+      change (beqb x7b x22) with false. change (is_num_start x7b) with false. change (beqb x7b x5b) with false.
+      change (beqb x7b x7b) with true. cbv beta iota. rewrite Es1, Ec2. split; [reflexivity | exact Er].
+    - destruct (members_loop (S (length s1)) s1) as [[ms r']|] eqn:El; [|discriminate].
+      destruct (skip_ws r') eqn:Er'; [|discriminate].
+      destruct (members_loop_skip _ _ _ _ El) as (g & t & Hg). exists (S g). eexists. exists r'.
+      rewrite skip_value_S. cbv zeta. rewrite Es. cbv beta iota.
+      change (beqb x7b x6e) with false. change (beqb x7b x74) with false. change (beqb x7b x66) with false.
+      change (beqb x7b x22) with false. change (is_num_start x7b) with false. change (beqb x7b x5b) with false.
+      change (beqb x7b x7b) with true. cbv beta iota. rewrite Es1, Ec2, Hg. split; [reflexivity | exact Er']. }
+  destruct G as (g & t & r' & Hg & Hr). unfold lenient_json.
+  rewrite (skip_value_enough_fuel _ _ _ Hg), Hr. reflexivity.
+Qed.
+
+(* ====================================================================== *)
+(* one call                                                               *)
+(* ====================================================================== *)
+Section Facts.
+Variable reg : bytes -> option mkind.
+Variable h : bytes -> option bytes -> hres.
+
+(* the payload of the answer to a valid call *)
+Definition call_payload (t : transport) (c : scfg) (r : request) : payload :=
+  match reg (rq_method r) with
+  | None => PError method_not_found
+  | Some k =>
+    match k, t with
+    | KSub, Http | KUnsub, Http => PError internal_err
+    | KSub, Ws => hres_payload (h (rq_method r) (rq_params r))
+    | _, _ => handler_payload (rq_id r) (h (rq_method r) (rq_params r)) (sc_max_response c)
+    end
+  end.
+
+Lemma call_json t c r : c_json (call reg h t c r) = mk_response (rq_id r) (call_payload t c r).
+Proof.
+  unfold call, call_payload. destruct (reg (rq_method r)) as [k|]; [|reflexivity].
+  destruct k, t; cbn [c_json]; try reflexivity; try apply handler_response_eq; apply sub_response_eq.
+Qed.
+
+Lemma call_payload_ok t c r : handlers_wf h -> payload_ok (call_payload t c r).
+Proof.
+  intro Hw. unfold call_payload. destruct (reg (rq_method r)) as [k|]; [|apply method_not_found_ok].
+  destruct k, t; try apply handler_payload_ok; try apply hres_payload_ok; try apply Hw; apply internal_err_ok.
+Qed.
+
+(* what the WS transport puts on the wire for a single call: exactly the response, once *)
+Lemma call_ws_frames c r :
+  c_direct (call reg h Ws c r) ++
+    match c_kind (call reg h Ws c r) with RkCall | RkBatch => [c_json (call reg h Ws c r)] | _ => [] end =
+  [c_json (call reg h Ws c r)].
+Proof. unfold call. destruct (reg (rq_method r)) as [k|]; [destruct k|]; reflexivity. Qed.
+
+Lemma call_http_kind c r : c_kind (call reg h Http c r) = RkCall /\ c_direct (call reg h Http c r) = [].
+Proof. unfold call. destruct (reg (rq_method r)) as [k|]; [destruct k|]; split; reflexivity. Qed.
+
+Lemma call_log t c r :
+  c_log (call reg h t c r) =
+  match reg (rq_method r) with
+  | Some k => if runs_handler k t then [(rq_method r, rq_params r)] else []
+  | None => []
+  end.
+Proof. unfold call. destruct (reg (rq_method r)) as [k|]; [destruct k, t|]; reflexivity. Qed.
+
+(* direct writes only come from a subscription method over WebSocket *)
+Lemma call_direct_nil t c r :
+  ~ (t = Ws /\ reg (rq_method r) = Some KSub) -> c_direct (call reg h t c r) = [].
+Proof.
+  intro H. unfold call. destruct (reg (rq_method r)) as [k|] eqn:E; [|reflexivity].
+  destruct k, t; try reflexivity. exfalso. apply H. split; reflexivity.
+Qed.
+
+(* ====================================================================== *)
+(* single messages                                                        *)
+(* ====================================================================== *)
+
+(* the replies to a message sniffed as single, by class *)
+Definition single_replies (t : transport) (c : scfg) (body : bytes) : list bytes :=
+  match classify body with
+  | Call r => [mk_response (rq_id r) (call_payload t c r)]
+  | Notif => []
+  | Invalid i => [mk_response i (PError invalid_request)]
+  | ParseErr => [mk_response IdNull (PError parse_error)]
+  end.
+
+Lemma filter_not_null_one i p :
+  filter (fun f => negb (bytes_eqb f null_text)) [mk_response i p] = [mk_response i p].
+Proof. cbn [filter]. rewrite mk_response_not_null. reflexivity. Qed.
+
+Lemma replies_single t c b body :
+  sniff t b = Some (true, body) -> replies t (handle reg h t c b) = single_replies t c body.
+Proof.
+  intro H. unfold handle. rewrite H. unfold handle_rpc_call, rpc_single, single_replies.
+  destruct (classify body) as [r| |i|] eqn:E.
+  - destruct t; cbn [replies o_frames m_direct m_kind m_json].
+    + destruct (call_http_kind c r) as [_ _]. rewrite call_json. apply filter_not_null_one.
+    + rewrite call_ws_frames, call_json. reflexivity.
+  - destruct t; reflexivity.
+  - destruct t; cbn [replies o_frames plain m_direct m_kind m_json app]; [apply filter_not_null_one | reflexivity].
+  - destruct t; cbn [replies o_frames plain m_direct m_kind m_json app]; [apply filter_not_null_one | reflexivity].
+Qed.
+
+Lemma replies_unsniffable t c b :
+  sniff t b = None -> replies t (handle reg h t c b) = [mk_response IdNull (PError parse_error)] /\ o_log (handle reg h t c b) = [].
+Proof.
+  intro H. unfold handle. rewrite H. destruct t; cbn [replies o_frames o_log]; split; reflexivity.
+Qed.
+
+Lemma log_single t c b body :
+  sniff t b = Some (true, body) ->
+  o_log (handle reg h t c b) =
+  match classify body with
+  | Call r => match reg (rq_method r) with
+              | Some k => if runs_handler k t then [(rq_method r, rq_params r)] else []
+              | None => [] end
+  | _ => []
+  end.
+Proof.
+  intro H. unfold handle. rewrite H. unfold handle_rpc_call, rpc_single.
+  destruct (classify body) as [r| |i|]; destruct t; cbn [o_log m_log plain notification_resp]; try reflexivity; apply call_log.
+Qed.
+
+(* HTTP acknowledges a notification with status 200 and the body `null` *)
+Lemma http_notification_ack c b body :
+  sniff Http b = Some (true, body) -> classify body = Notif ->
+  o_status (handle reg h Http c b) = Some 200 /\ o_frames (handle reg h Http c b) = [null_text].
+Proof.
+  intros H E. unfold handle. rewrite H. unfold handle_rpc_call, rpc_single. rewrite E. split; reflexivity.
+Qed.
+
+(* ====================================================================== *)
+(* C01                                                                    *)
+(* ====================================================================== *)
+
+Lemma not_batch_cases t b :
+  is_batch_msg t b = false -> sniff t b = None \/ exists body, sniff t b = Some (true, body).
+Proof.
+  unfold is_batch_msg. destruct (sniff t b) as [[[|] body]|]; intro H; try discriminate H.
+  - right. exists body. reflexivity.
+  - left. reflexivity.
+Qed.
+
+Lemma single_replies_wellformed t c body :
+  handlers_wf h -> (length (single_replies t c body) <= 1)%nat /\ Forall wellformed_response (single_replies t c body).
+Proof.
+  intro Hw. unfold single_replies. destruct (classify body) as [r| |i|] eqn:E; cbn [length]; (split; [lia|]).
+  - constructor; [|constructor].
+    apply (is_response_wellformed _ (rq_id r) (call_payload t c r)).
+    + apply (classify_call_wf _ _ E).
+    + apply call_payload_ok, Hw.
+    + apply mk_response_is_response; [apply (classify_call_wf _ _ E) | apply call_payload_ok, Hw].
+  - constructor.
+  - constructor; [|constructor].
+    apply (is_response_wellformed _ i (PError invalid_request)); [apply (classify_invalid_wf _ _ E) | apply invalid_request_ok |].
+    apply mk_response_is_response; [apply (classify_invalid_wf _ _ E) | apply invalid_request_ok].
+  - constructor; [|constructor].
+    apply (is_response_wellformed _ IdNull (PError parse_error)); [exact I | apply parse_error_ok |].
+    apply mk_response_is_response; [exact I | apply parse_error_ok].
+Qed.
+
+Lemma c01_reply_wellformed t c b :
+  handlers_wf h -> panics_only_blocking reg h -> is_batch_msg t b = false ->
+  (length (replies t (handle reg h t c b)) <= 1)%nat /\
+  Forall wellformed_response (replies t (handle reg h t c b)).
+Proof.
+  intros Hw _ Hb. destruct (not_batch_cases t b Hb) as [S | [body S]].
+  - destruct (replies_unsniffable t c b S) as [-> _]. cbn [length]. split; [lia|].
+    constructor; [|constructor].
+    apply (is_response_wellformed _ IdNull (PError parse_error)); [exact I | apply parse_error_ok |].
+    apply mk_response_is_response; [exact I | apply parse_error_ok].
+  - rewrite (replies_single t c b body S). apply single_replies_wellformed, Hw.
+Qed.
+
+Lemma c01_silent_iff_notification t c b :
+  is_batch_msg t b = false ->
+  (replies t (handle reg h t c b) = [] <-> exists body, sniff t b = Some (true, body) /\ classify body = Notif).
+Proof.
+  intro Hb. destruct (not_batch_cases t b Hb) as [S | [body S]].
+  - destruct (replies_unsniffable t c b S) as [-> _]. split; [discriminate|].
+    intros (body & S' & _). rewrite S in S'. discriminate S'.
+  - rewrite (replies_single t c b body S). unfold single_replies. split.
+    + intro H. exists body. split; [exact S|]. destruct (classify body); try discriminate H. reflexivity.
+    + intros (body' & S' & E). rewrite S in S'. inversion S'. subst body'. rewrite E. reflexivity.
+Qed.
+
+Lemma c01_duplicate_id body m :
+  object_members body = Some m -> as_notification m <> None -> field_of k_id m = FDup -> classify body = Notif.
+Proof.
+  intros Hm Hn Hd. apply classify_notif_iff. exists m. split; [exact Hm|]. split; [exact Hn|]. rewrite Hd. exact I.
+Qed.
+
+Lemma c01_call_answered t c b body r :
+  handlers_wf h -> panics_only_blocking reg h -> sniff t b = Some (true, body) -> classify body = Call r ->
+  exists f p, replies t (handle reg h t c b) = [f] /\ is_response f (rq_id r) p /\
+    (reg (rq_method r) = None -> p = PError method_not_found) /\
+    (forall k, reg (rq_method r) = Some k -> served k t = false -> p = PError internal_err) /\
+    (forall k, reg (rq_method r) = Some k -> served k t = true ->
+       let too_big q := sc_max_response c < blen (mk_response (rq_id r) q) /\
+                        p = PError (oversized_response_error (sc_max_response c)) in
+       match h (rq_method r) (rq_params r) with
+       | HOk raw => p = PResult raw \/ too_big (PResult raw)
+       | HErr code msg d => p = PError (mk_err code msg d) \/ too_big (PError (mk_err code msg d))
+       | HBadParams d => p = PError (invalid_params d) \/ too_big (PError (invalid_params d))
+       | HPanic => p = PError internal_err
+       end).
+Proof.
+  intros Hw _ S E. exists (mk_response (rq_id r) (call_payload t c r)), (call_payload t c r).
+  split; [rewrite (replies_single t c b body S); unfold single_replies; rewrite E; reflexivity|].
+  split; [apply mk_response_is_response; [apply (classify_call_wf _ _ E) | apply call_payload_ok, Hw]|].
+  unfold call_payload. split; [intros ->; reflexivity|]. split.
+  - intros k -> Hs. destruct k, t; try discriminate Hs; reflexivity.
+  - intros k -> Hs. cbv zeta.
+    destruct k, t; try discriminate Hs;
+      destruct (h (rq_method r) (rq_params r)) as [raw|code msg d|d|];
+      cbn [handler_payload hres_payload err_of]; try reflexivity; try (left; reflexivity);
+      unfold bounded;
+      match goal with |- context [?x <=? ?y] => destruct (N.leb_spec x y) as [Hle|Hgt] end;
+      solve [left; reflexivity | right; (split; [exact Hgt | reflexivity])].
+Qed.
+
+Lemma c01_not_json t c b :
+  sniff t b = None \/ (exists body, sniff t b = Some (true, body) /\ object_members body = None) ->
+  replies t (handle reg h t c b) = [mk_response IdNull (PError parse_error)] /\ o_log (handle reg h t c b) = [].
+Proof.
+  intros [S | (body & S & Hm)]; [apply replies_unsniffable, S|].
+  rewrite (replies_single t c b body S), (log_single t c b body S). unfold single_replies, classify. rewrite Hm.
+  split; reflexivity.
+Qed.
+
+Lemma c01_not_json_lenient t c b :
+  sniff t b = None \/ (exists body, sniff t b = Some (true, body) /\ lenient_json body = false) ->
+  replies t (handle reg h t c b) = [mk_response IdNull (PError parse_error)] /\ o_log (handle reg h t c b) = [].
+Proof.
+  intros [S | (body & S & Hj)]; apply c01_not_json; [left; exact S | right].
+  exists body. split; [exact S|]. destruct (object_members body) as [m|] eqn:E; [|reflexivity].
+  rewrite (object_members_lenient_json body m E) in Hj. discriminate Hj.
+Qed.
+
+Lemma c01_not_request t c b body m :
+  sniff t b = Some (true, body) -> object_members body = Some m -> as_request m = None -> as_notification m = None ->
+  o_log (handle reg h t c b) = [] /\
+  match as_invalid m with
+  | Some i => replies t (handle reg h t c b) = [mk_response i (PError invalid_request)]
+  | None => replies t (handle reg h t c b) = [mk_response IdNull (PError parse_error)]
+  end.
+Proof.
+  intros S Hm Hr Hn. rewrite (replies_single t c b body S), (log_single t c b body S).
+  unfold single_replies, classify. rewrite Hm, Hr, Hn. destruct (as_invalid m); split; reflexivity.
+Qed.
+
+Lemma call_ws_http c r :
+  reg (rq_method r) <> Some KSub -> reg (rq_method r) <> Some KUnsub ->
+  call_payload Ws c r = call_payload Http c r /\ c_log (call reg h Ws c r) = c_log (call reg h Http c r).
+Proof.
+  intros H1 H2. unfold call_payload, call. destruct (reg (rq_method r)) as [k|]; [|split; reflexivity].
+  destruct k; try (split; reflexivity); exfalso; (apply H1; reflexivity) || (apply H2; reflexivity).
+Qed.
+
+Lemma c01_ws_http_agree c b :
+  is_batch_msg Ws b = false ->
+  (forall body r, sniff Ws b = Some (true, body) -> classify body = Call r ->
+     reg (rq_method r) <> Some KSub /\ reg (rq_method r) <> Some KUnsub) ->
+  replies Ws (handle reg h Ws c b) = replies Http (handle reg h Http c b) /\
+  o_log (handle reg h Ws c b) = o_log (handle reg h Http c b).
+Proof.
+  intros Hb Hm. destruct (not_batch_cases Ws b Hb) as [S | [body S]].
+  - pose proof S as S'. rewrite sniff_ws_http in S'.
+    destruct (replies_unsniffable Ws c b S) as [-> ->]. destruct (replies_unsniffable Http c b S') as [-> ->].
+    split; reflexivity.
+  - pose proof S as S'. rewrite sniff_ws_http in S'.
+    rewrite (replies_single Ws c b body S), (replies_single Http c b body S'),
+      (log_single Ws c b body S), (log_single Http c b body S').
+    unfold single_replies. destruct (classify body) as [r| |i|] eqn:E; try (split; reflexivity).
+    destruct (Hm body r S E) as [H1 H2]. destruct (call_ws_http c r H1 H2) as [-> _].
+    split; [reflexivity|]. destruct (reg (rq_method r)) as [k|]; [|reflexivity].
+    destruct k; try reflexivity; exfalso; (apply H1; reflexivity) || (apply H2; reflexivity).
+Qed.
+
+Lemma c01_handler_log t c b :
+  is_batch_msg t b = false ->
+  forall m p,
+    (o_log (handle reg h t c b) = [(m, p)] <->
+     exists body r k, sniff t b = Some (true, body) /\ classify body = Call r /\
+       rq_method r = m /\ rq_params r = p /\ reg m = Some k /\ runs_handler k t = true) /\
+    (o_log (handle reg h t c b) = [] \/ exists m' p', o_log (handle reg h t c b) = [(m', p')]).
+Proof.
+  intros Hb m p. destruct (not_batch_cases t b Hb) as [S | [body S]].
+  - destruct (replies_unsniffable t c b S) as [_ ->]. split; [|left; reflexivity]. split; [discriminate|].
+    intros (body & r & k & S' & _). rewrite S in S'. discriminate S'.
+  - rewrite (log_single t c b body S). destruct (classify body) as [r| |i|] eqn:E.
+    + destruct (reg (rq_method r)) as [k|] eqn:Er; [destruct (runs_handler k t) eqn:Eh|].
+      * split; [|right; eexists; eexists; reflexivity]. split.
+        -- intro H. inversion H. subst m p. exists body, r, k. repeat split; assumption.
+        -- intros (body' & r' & k' & S' & E' & <- & <- & _). rewrite S in S'. inversion S'. subst body'.
+           rewrite E in E'. inversion E'. reflexivity.
+      * split; [|left; reflexivity]. split; [discriminate|].
+        intros (body' & r' & k' & S' & E' & Hm' & _ & Hr' & Hrun). rewrite S in S'. inversion S'. subst body'.
+        rewrite E in E'. inversion E'. subst r'. rewrite Hm' in Er. rewrite Er in Hr'. inversion Hr'. subst k'.
+        rewrite Eh in Hrun. discriminate Hrun.
+      * split; [|left; reflexivity]. split; [discriminate|].
+        intros (body' & r' & k' & S' & E' & Hm' & _ & Hr' & _). rewrite S in S'. inversion S'. subst body'.
+        rewrite E in E'. inversion E'. subst r'. rewrite Hm' in Er. rewrite Er in Hr'. discriminate Hr'.
+    + split; [|left; reflexivity]. split; [discriminate|].
+      intros (body' & r' & k' & S' & E' & _). rewrite S in S'. inversion S'. subst body'. rewrite E in E'. discriminate E'.
+    + split; [|left; reflexivity]. split; [discriminate|].
+      intros (body' & r' & k' & S' & E' & _). rewrite S in S'. inversion S'. subst body'. rewrite E in E'. discriminate E'.
+    + split; [|left; reflexivity]. split; [discriminate|].
+      intros (body' & r' & k' & S' & E' & _). rewrite S in S'. inversion S'. subst body'. rewrite E in E'. discriminate E'.
+Qed.
+
+Lemma c01_connection_continues t c msgs :
+  serve reg h t c true msgs = map (handle reg h t c) msgs.
+Proof.
+  induction msgs as [|b ms IH]; [reflexivity|]. cbn [serve map]. cbv zeta. unfold continues at 1. rewrite IH. reflexivity.
+Qed.
+
+(* ====================================================================== *)
+(* batches                                                                *)
+(* ====================================================================== *)
+
+(* the response of one entry (None: a notification) *)
+Definition entry_response (t : transport) (c : scfg) (e : bytes) : option bytes :=
+  match entry_result reg h t c e with Some cr => Some (c_json cr) | None => None end.
+Definition opt_list {A} (o : option A) : list A := match o with Some x => [x] | None => [] end.
+(* one response per call-or-invalid entry, in entry order, none for notifications *)
+Definition entry_responses (t : transport) (c : scfg) (es : list bytes) : list bytes :=
+  flat_map (fun e => opt_list (entry_response t c e)) es.
+Definition entry_directs (t : transport) (c : scfg) (es : list bytes) : list bytes :=
+  flat_map (fun e => match entry_result reg h t c e with Some cr => c_direct cr | None => [] end) es.
+Definition entry_logs (t : transport) (c : scfg) (es : list bytes) : log :=
+  flat_map (fun e => match entry_result reg h t c e with Some cr => c_log cr | None => [] end) es.
+
+(* everything after the two gates *)
+Definition batch_tail (t : transport) (c : scfg) (es : list bytes) : mresp :=
+  let '(buf, overflow, direct, lg) := run_entries reg h t c batch_new es in
+  if overflow then
+    {| m_json := too_big_batch (sc_max_response c); m_kind := RkCall; m_direct := direct; m_log := lg |}
+  else if (Nat.leb (length buf) 1) && existsb is_notification_entry es then
+    {| m_json := null_text; m_kind := RkNotif; m_direct := direct; m_log := lg |}
+  else
+    {| m_json := finish buf; m_kind := RkBatch; m_direct := direct; m_log := lg |}.
+
+Lemma rpc_batch_enabled t c body :
+  sc_batch c <> BDisabled ->
+  rpc_batch reg h t c body =
+  match batch_elems body with
+  | None => plain (error_response IdNull parse_error)
+  | Some es =>
+    match over_limit (sc_batch c) (length es) with
+    | Some l => plain (error_response IdNull (too_big_batch_request l))
+    | None => batch_tail t c es
+    end
+  end.
+Proof. intro H. unfold rpc_batch. destruct (sc_batch c); [congruence | reflexivity | reflexivity]. Qed.
+
+Lemma alen_snoc_le done r rest : alen (done ++ [r]) <= alen (done ++ r :: rest).
+Proof. rewrite !alen_app. cbn [alen]. lia. Qed.
+
+Lemma run_entries_fits t c : forall es done,
+  1 + alen (done ++ entry_responses t c es) <= sc_max_response c ->
+  run_entries reg h t c (buf_of done) es =
+  (buf_of (done ++ entry_responses t c es), false, entry_directs t c es, entry_logs t c es).
+Proof.
+  induction es as [|e es IH]; intros done Hfit.
+  - cbn. rewrite app_nil_r. reflexivity.
+  - cbn [run_entries entry_responses entry_directs entry_logs flat_map]. unfold entry_response at 1.
+    unfold entry_responses in Hfit. cbn [flat_map] in Hfit. unfold entry_response at 1 in Hfit.
+    destruct (entry_result reg h t c e) as [cr|]; cbn [opt_list app] in *.
+    + rewrite append_spec.
+      pose proof (alen_snoc_le done (c_json cr) (flat_map (fun e0 => opt_list (entry_response t c e0)) es)) as L.
+      destruct (N.leb_spec (1 + alen (done ++ [c_json cr])) (sc_max_response c)) as [Hle|Hgt]; [|lia].
+      fold (entry_responses t c es) in *.
+      rewrite (IH (done ++ [c_json cr])) by (rewrite <- app_assoc; exact Hfit).
+      rewrite <- app_assoc. reflexivity.
+    + fold (entry_responses t c es) in *. apply IH, Hfit.
+Qed.
+
+Definition re_overflow (x : bytes * bool * list bytes * log) : bool := snd (fst (fst x)).
+Definition re_direct (x : bytes * bool * list bytes * log) : list bytes := snd (fst x).
+Definition re_log (x : bytes * bool * list bytes * log) : log := snd x.
+
+Lemma run_entries_overflow t c : forall es done,
+  sc_max_response c < 1 + alen (done ++ entry_responses t c es) -> entry_responses t c es <> [] ->
+  re_overflow (run_entries reg h t c (buf_of done) es) = true.
+Proof.
+  induction es as [|e es IH]; intros done Hbig Hne; [exfalso; apply Hne; reflexivity|].
+  cbn [run_entries]. unfold entry_responses in Hbig, Hne. cbn [flat_map] in Hbig, Hne.
+  unfold entry_response at 1 in Hbig. unfold entry_response at 1 in Hne.
+  destruct (entry_result reg h t c e) as [cr|]; cbn [opt_list app] in *.
+  - rewrite append_spec.
+    destruct (N.leb_spec (1 + alen (done ++ [c_json cr])) (sc_max_response c)) as [Hle|Hgt]; [|reflexivity].
+    fold (entry_responses t c es) in *.
+    assert (Hne' : entry_responses t c es <> []).
+    { intro E. rewrite E in Hbig. lia. }
+    specialize (IH (done ++ [c_json cr])). rewrite <- app_assoc in IH. specialize (IH Hbig Hne').
+    destruct (run_entries reg h t c (buf_of (done ++ [c_json cr])) es) as [[[b o] d] l]. exact IH.
+  - fold (entry_responses t c es) in *. apply IH; assumption.
+Qed.
+
+Lemma entry_responses_nil t c es :
+  entry_responses t c es = [] -> forall e, In e es -> entry_result reg h t c e = None.
+Proof.
+  induction es as [|e0 es IH]; intros H e He; [destruct He|].
+  unfold entry_responses in H. cbn [flat_map] in H. apply app_eq_nil in H as [H1 H2].
+  destruct He as [<- | He]; [|apply IH; assumption].
+  unfold entry_response in H1. destruct (entry_result reg h t c e0); [discriminate H1 | reflexivity].
+Qed.
+
+Lemma run_entries_all_none t c : forall es buf,
+  (forall e, In e es -> entry_result reg h t c e = None) -> run_entries reg h t c buf es = (buf, false, [], []).
+Proof.
+  induction es as [|e es IH]; intros buf H; [reflexivity|]. cbn [run_entries].
+  rewrite (H e (or_introl eq_refl)). apply IH. intros e' He'. apply H. right. exact He'.
+Qed.
+
+Lemma entry_none_is_notification t c e : entry_result reg h t c e = None -> is_notification_entry e = true.
+Proof. unfold entry_result, is_notification_entry. destruct (classify_entry e); try discriminate. reflexivity. Qed.
+
+Lemma buf_of_length_ge2 rs : rs <> [] -> Nat.leb (length (buf_of rs)) 1 = false.
+Proof.
+  destruct rs as [|r rs]; [congruence|]. intros _. apply Nat.leb_gt.
+  unfold buf_of. cbn [map concat length]. rewrite !app_length. cbn [length]. lia.
+Qed.
+
+(* the batch reply after the gates, by cases on the responses of the entries *)
+Lemma batch_tail_spec t c es :
+  let rs := entry_responses t c es in
+  let max := sc_max_response c in
+  (es = [] -> batch_tail t c es =
+     {| m_json := error_response IdNull invalid_request; m_kind := RkBatch; m_direct := []; m_log := [] |}) /\
+  (es <> [] -> rs = [] -> batch_tail t c es = {| m_json := null_text; m_kind := RkNotif; m_direct := []; m_log := [] |}) /\
+  (rs <> [] -> blen (array_of rs) <= max -> batch_tail t c es =
+     {| m_json := array_of rs; m_kind := RkBatch; m_direct := entry_directs t c es; m_log := entry_logs t c es |}) /\
+  (rs <> [] -> max < blen (array_of rs) ->
+     m_json (batch_tail t c es) = too_big_batch max /\ m_kind (batch_tail t c es) = RkCall).
+Proof.
+  cbv zeta. repeat split.
+  - intros ->. reflexivity.
+  - intros Hne Hrs. unfold batch_tail.
+    rewrite (run_entries_all_none t c es batch_new (entry_responses_nil t c es Hrs)).
+    assert (Ex : existsb is_notification_entry es = true).
+    { destruct es as [|e es]; [congruence|]. cbn [existsb].
+      rewrite (entry_none_is_notification t c e); [reflexivity|].
+      apply (entry_responses_nil t c _ Hrs). left. reflexivity. }
+    rewrite Ex. reflexivity.
+  - intros Hne Hfit. unfold batch_tail. change batch_new with (buf_of []).
+    rewrite (blen_array_of _ Hne) in Hfit.
+    rewrite run_entries_fits by (cbn [app]; exact Hfit). cbn [app].
+    rewrite (buf_of_length_ge2 _ Hne). cbn [andb]. rewrite (finish_buf_of _ Hne). reflexivity.
+  - unfold batch_tail. change batch_new with (buf_of []).
+    rewrite (blen_array_of _ H) in H0.
+    pose proof (run_entries_overflow t c es [] H0 H) as O.
+    destruct (run_entries reg h t c (buf_of []) es) as [[[b o] d] l]. unfold re_overflow in O. cbn [fst snd] in O.
+    subst o. reflexivity.
+  - unfold batch_tail. change batch_new with (buf_of []).
+    rewrite (blen_array_of _ H) in H0.
+    pose proof (run_entries_overflow t c es [] H0 H) as O.
+    destruct (run_entries reg h t c (buf_of []) es) as [[[b o] d] l]. unfold re_overflow in O. cbn [fst snd] in O.
+    subst o. reflexivity.
+Qed.
+
+(* ====================================================================== *)
+(* C02                                                                    *)
+(* ====================================================================== *)
+
+(* frames and log of a message sniffed as a batch, in terms of what handle_rpc_call returns *)
+Definition ws_own (r : mresp) : list bytes := match m_kind r with RkCall | RkBatch => [m_json r] | _ => [] end.
+
+Lemma handle_batch t c b body :
+  sniff t b = Some (false, body) ->
+  let r := rpc_batch reg h t c body in
+  o_log (handle reg h t c b) = m_log r /\
+  o_frames (handle reg h t c b) = match t with Ws => m_direct r ++ ws_own r | Http => [m_json r] end.
+Proof. intro S. unfold handle. rewrite S. unfold handle_rpc_call. destruct t; split; reflexivity. Qed.
+
+Lemma frames_plain t c b body json :
+  sniff t b = Some (false, body) -> rpc_batch reg h t c body = plain json ->
+  o_frames (handle reg h t c b) = [json] /\ o_log (handle reg h t c b) = [].
+Proof.
+  intros S E. destruct (handle_batch t c b body S) as [L F]. rewrite L, F, E. destruct t; split; reflexivity.
+Qed.
+
+(* the three gates + the unparseable array: one error object with id null, nothing executed *)
+Lemma c02_gate t c b body :
+  sniff t b = Some (false, body) ->
+  (sc_batch c = BDisabled ->
+     o_frames (handle reg h t c b) = [mk_response IdNull (PError batches_not_supported)] /\ o_log (handle reg h t c b) = []) /\
+  (forall n es, sc_batch c = BLimit n -> batch_elems body = Some es -> n < N.of_nat (length es) ->
+     o_frames (handle reg h t c b) = [mk_response IdNull (PError (too_big_batch_request n))] /\ o_log (handle reg h t c b) = []) /\
+  (sc_batch c <> BDisabled -> batch_elems body = Some [] ->
+     o_frames (handle reg h t c b) = [mk_response IdNull (PError invalid_request)] /\ o_log (handle reg h t c b) = []) /\
+  (sc_batch c <> BDisabled -> batch_elems body = None ->
+     o_frames (handle reg h t c b) = [mk_response IdNull (PError parse_error)] /\ o_log (handle reg h t c b) = []).
+Proof.
+  intro S. repeat split.
+  - eapply frames_plain; [exact S|]. unfold rpc_batch. rewrite H. reflexivity.
+  - eapply frames_plain; [exact S|]. unfold rpc_batch. rewrite H. reflexivity.
+  - eapply frames_plain; [exact S|]. rewrite rpc_batch_enabled by (rewrite H; discriminate).
+    rewrite H0, H. unfold over_limit. destruct (N.ltb_spec n (N.of_nat (length es))); [reflexivity | lia].
+  - eapply frames_plain; [exact S|]. rewrite rpc_batch_enabled by (rewrite H; discriminate).
+    rewrite H0, H. unfold over_limit. destruct (N.ltb_spec n (N.of_nat (length es))); [reflexivity | lia].
+  - destruct (handle_batch t c b body S) as [L F]. rewrite F, rpc_batch_enabled, H0 by exact H.
+    assert (O : over_limit (sc_batch c) (length (@nil bytes)) = None).
+    { unfold over_limit. destruct (sc_batch c) as [|l|]; try reflexivity. cbn [length]. destruct (N.ltb_spec l (N.of_nat 0)); [lia | reflexivity]. }
+    rewrite O. destruct t; reflexivity.
+  - destruct (handle_batch t c b body S) as [L F]. rewrite L, rpc_batch_enabled, H0 by exact H.
+    assert (O : over_limit (sc_batch c) (length (@nil bytes)) = None).
+    { unfold over_limit. destruct (sc_batch c) as [|l|]; try reflexivity. cbn [length]. destruct (N.ltb_spec l (N.of_nat 0)); [lia | reflexivity]. }
+    rewrite O. reflexivity.
+  - eapply frames_plain; [exact S|]. rewrite rpc_batch_enabled, H0 by exact H. reflexivity.
+  - eapply frames_plain; [exact S|]. rewrite rpc_batch_enabled, H0 by exact H. reflexivity.
+Qed.
+
+(* a batch that passed the gates *)
+Definition admitted (c : scfg) (body : bytes) (es : list bytes) : Prop :=
+  sc_batch c <> BDisabled /\ batch_elems body = Some es /\ es <> [] /\ over_limit (sc_batch c) (length es) = None.
+
+Lemma rpc_batch_admitted t c body es : admitted c body es -> rpc_batch reg h t c body = batch_tail t c es.
+Proof. intros (H1 & H2 & _ & H4). rewrite rpc_batch_enabled, H2, H4 by exact H1. reflexivity. Qed.
+
+Lemma c02_array_shape t c b body es :
+  sniff t b = Some (false, body) -> admitted c body es ->
+  let rs := entry_responses t c es in
+  (rs = [] -> replies t (handle reg h t c b) = [] /\
+              (t = Http -> o_status (handle reg h t c b) = Some 200 /\ o_frames (handle reg h t c b) = [null_text])) /\
+  (rs <> [] -> blen (array_of rs) <= sc_max_response c ->
+     o_frames (handle reg h t c b) = entry_directs t c es ++ [array_of rs] /\
+     o_log (handle reg h t c b) = entry_logs t c es).
+Proof.
+  intros S A. cbv zeta. destruct (handle_batch t c b body S) as [L F].
+  destruct (batch_tail_spec t c es) as (_ & T2 & T3 & _). pose proof A as (_ & _ & Hne & _). split.
+  - intro Hrs. unfold replies. rewrite F, (rpc_batch_admitted t c body es A), (T2 Hne Hrs).
+    destruct t; cbn [m_direct ws_own m_kind m_json app filter]; (split; [reflexivity|]); intro Ht; try discriminate Ht.
+    split; [|reflexivity]. unfold handle. rewrite S. reflexivity.
+  - intros Hrs Hfit. rewrite L, F, (rpc_batch_admitted t c body es A), (T3 Hrs Hfit).
+    cbn [m_direct ws_own m_kind m_json m_log]. split; [|reflexivity].
+    destruct t; [|reflexivity].
+    (* HTTP: no direct writes *)
+    assert (D : entry_directs Http c es = []).
+    { unfold entry_directs. clear. induction es as [|e es IH]; [reflexivity|]. cbn [flat_map]. rewrite IH, app_nil_r.
+      unfold entry_result. destruct (classify_entry e) as [r| |i]; try reflexivity. apply call_http_kind. }
+    rewrite D. reflexivity.
+Qed.
+
+Lemma c02_only_size_limit t c b body es :
+  sniff t b = Some (false, body) -> admitted c body es ->
+  let rs := entry_responses t c es in
+  rs <> [] ->
+  let own := m_json (rpc_batch reg h t c body) in
+  In own (o_frames (handle reg h t c b)) /\
+  ((own = array_of rs /\ blen (array_of rs) <= sc_max_response c) \/
+   (own = too_big_batch (sc_max_response c) /\ sc_max_response c < blen (array_of rs))).
+Proof.
+  intros S A. cbv zeta. intro Hrs. destruct (handle_batch t c b body S) as [_ F].
+  destruct (batch_tail_spec t c es) as (_ & _ & T3 & T4).
+  rewrite F, (rpc_batch_admitted t c body es A).
+  destruct (N.leb_spec (blen (array_of (entry_responses t c es))) (sc_max_response c)) as [Hle|Hgt].
+  - rewrite (T3 Hrs Hle). cbn [m_json m_direct ws_own m_kind]. split; [|left; split; [reflexivity | exact Hle]].
+    destruct t; [left; reflexivity | apply in_or_app; right; left; reflexivity].
+  - destruct (T4 Hrs Hgt) as [J K]. split; [|right; split; [exact J | exact Hgt]].
+    destruct t; [left; reflexivity|]. apply in_or_app. right. unfold ws_own. rewrite K. left. reflexivity.
+Qed.
+
+(* classification of entries: an object text is classified exactly as a single message is; anything else is invalid *)
+Lemma c02_entries_classified e :
+  (is_object_text e = true -> classify_entry e = entry_of_class (classify e)) /\
+  (is_object_text e = false -> classify_entry e = EInvalid IdNull).
+Proof. unfold classify_entry. destruct (is_object_text e); split; intro H; try discriminate H; reflexivity. Qed.
+
+Lemma c02_entry_equals_single t c e :
+  is_object_text e = true ->
+  (forall r, classify e = Call r ->
+     entry_response t c e = Some (mk_response (rq_id r) (call_payload t c r)) /\
+     replies t (handle reg h t c e) = [mk_response (rq_id r) (call_payload t c r)]) /\
+  (forall i, classify e = Invalid i ->
+     entry_response t c e = Some (mk_response i (PError invalid_request)) /\
+     replies t (handle reg h t c e) = [mk_response i (PError invalid_request)]) /\
+  (classify e = Notif -> entry_response t c e = None /\ replies t (handle reg h t c e) = []).
+Proof.
+  intro Ho. pose proof (sniff_object_text t e Ho) as S.
+  unfold entry_response, entry_result, classify_entry. rewrite Ho, (replies_single t c e e S). unfold single_replies.
+  repeat split; intros; rewrite H; cbn [entry_of_class c_json]; try reflexivity. rewrite call_json. reflexivity.
+Qed.
+
+(* direct writes of a batch only come from calls to subscription methods over WebSocket *)
+Lemma entry_direct_nil t c es e :
+  ~ KnownClass_C02_sub reg t es -> In e es ->
+  match entry_result reg h t c e with Some cr => c_direct cr = [] | None => True end.
+Proof.
+  intros Hk He. unfold entry_result, classify_entry. destruct (is_object_text e) eqn:Ho; [|reflexivity].
+  destruct (classify e) as [r| |i|] eqn:E; cbn [entry_of_class]; try reflexivity; try exact I.
+  apply call_direct_nil. intros [Ht Hr]. apply Hk. split; [exact Ht|]. exists e, r. repeat split; assumption.
+Qed.
+
+Lemma run_entries_direct_nil t c : forall es buf,
+  (forall e, In e es -> match entry_result reg h t c e with Some cr => c_direct cr = [] | None => True end) ->
+  re_direct (run_entries reg h t c buf es) = [].
+Proof.
+  induction es as [|e es IH]; intros buf H; [reflexivity|]. cbn [run_entries].
+  pose proof (H e (or_introl eq_refl)) as He.
+  assert (H' : forall e', In e' es -> match entry_result reg h t c e' with Some cr => c_direct cr = [] | None => True end).
+  { intros e' He'. apply H. right. exact He'. }
+  destruct (entry_result reg h t c e) as [cr|]; [|apply IH, H'].
+  destruct (append buf (sc_max_response c) (c_json cr)) as [buf'|]; [|exact He].
+  specialize (IH buf' H'). destruct (run_entries reg h t c buf' es) as [[[b0 o] d] l].
+  unfold re_direct in *. cbn [fst snd] in *. rewrite He, IH. reflexivity.
+Qed.
+
+Lemma batch_tail_direct t c es : m_direct (batch_tail t c es) = re_direct (run_entries reg h t c batch_new es).
+Proof.
+  unfold batch_tail. destruct (run_entries reg h t c batch_new es) as [[[b0 o] d] l].
+  destruct o; [reflexivity|]. destruct (_ && _); reflexivity.
+Qed.
+
+Lemma c02_nothing_outside t c b body :
+  sniff t b = Some (false, body) ->
+  (forall es, batch_elems body = Some es -> ~ KnownClass_C02_sub reg t es) ->
+  (length (o_frames (handle reg h t c b)) <= 1)%nat /\
+  o_frames (handle reg h t c b) = match t with Ws => ws_own (rpc_batch reg h t c body) | Http => [m_json (rpc_batch reg h t c body)] end.
+Proof.
+  intros S Hk. destruct (handle_batch t c b body S) as [_ F]. rewrite F.
+  destruct t; [split; [cbn [length]; lia | reflexivity]|].
+  assert (D : m_direct (rpc_batch reg h Ws c body) = []).
+  { unfold rpc_batch. destruct (sc_batch c) eqn:Eb; [reflexivity| |];
+      (destruct (batch_elems body) as [es|] eqn:Ee; [|reflexivity]);
+      (destruct (over_limit _ (length es)); [reflexivity|]);
+      fold (batch_tail Ws c es); rewrite batch_tail_direct; apply run_entries_direct_nil;
+      intros e He; apply (entry_direct_nil Ws c es e (Hk es eq_refl) He). }
+  rewrite D. cbn [app]. split; [|reflexivity]. unfold ws_own. destruct (m_kind _); cbn [length]; lia.
+Qed.
+
+
+(* ---------- the array reply reads back as exactly its responses ---------- *)
+Lemma array_elems_fuel_eq f s : array_elems_fuel f s = split_elems f s.
+Proof. reflexivity. Qed.
+
+Lemma join_length_ge (rs : list bytes) :
+  (forall r, In r rs -> (1 <= length r)%nat) -> (length rs <= length (join [x2c] rs))%nat.
+Proof.
+  induction rs as [|r rs IH]; intro H; [cbn; lia|]. destruct rs as [|r2 rs].
+  - cbn [join length]. apply H. left. reflexivity.
+  - rewrite join_cons2, !app_length. cbn [length].
+    pose proof (H r (or_introl eq_refl)). assert (length (r2 :: rs) <= length (join [x2c] (r2 :: rs)))%nat.
+    { apply IH. intros r' Hr'. apply H. right. exact Hr'. }
+    cbn [length] in *. lia.
+Qed.
+
+Lemma array_of_elems rs : rs <> [] -> Forall span_ok rs -> array_elems (array_of rs) = Some rs.
+Proof.
+  intros Hne HF. unfold array_elems. rewrite array_elems_fuel_eq. unfold array_of.
+  assert (HR : Forall raw_ok rs) by (eapply Forall_impl; [|exact HF]; intros r [R _]; exact R).
+  rewrite (proj2 (skip_array_join rs Hne HR)).
+  - f_equal. induction HF as [|r rs [_ W] _ IH]; [reflexivity|]. cbn [map]. rewrite W. f_equal.
+    destruct rs as [|r2 rs]; [reflexivity|]. apply IH; [discriminate|]. inversion HR. assumption.
+  - cbn [length]. rewrite app_length. cbn [length].
+    assert (length rs <= length (join [x2c] rs))%nat; [|lia].
+    apply join_length_ge. intros r Hr. rewrite Forall_forall in HR. apply raw_ok_nonempty, HR, Hr.
+Qed.
+
+Lemma mk_response_span_ok i p : wf_id i -> payload_ok p -> span_ok (mk_response i p).
+Proof.
+  intros Wi Wp. rewrite mk_response_eq. apply span_ok_object.
+  constructor; [split; [reflexivity | apply span_ok_two]|].
+  constructor; [split; [reflexivity | apply span_ok_id, Wi]|].
+  constructor; [apply payload_member_ok, Wp | constructor].
+Qed.
+
+(* every response of an entry is a response object with a well-formed id and payload *)
+Lemma entry_response_shape t c e f :
+  handlers_wf h -> entry_response t c e = Some f -> exists i p, f = mk_response i p /\ wf_id i /\ payload_ok p.
+Proof.
+  intros Hw. unfold entry_response, entry_result, classify_entry.
+  destruct (is_object_text e).
+  - destruct (classify e) as [r| |i|] eqn:E; cbn [entry_of_class]; intro H; try discriminate H; inv_some H.
+    + exists (rq_id r), (call_payload t c r). rewrite call_json.
+      split; [reflexivity|]. split; [apply (classify_call_wf _ _ E) | apply call_payload_ok, Hw].
+    + exists i, (PError invalid_request). split; [reflexivity|]. split; [apply (classify_invalid_wf _ _ E) | apply invalid_request_ok].
+    + exists IdNull, (PError invalid_request). split; [reflexivity|]. split; [exact I | apply invalid_request_ok].
+  - intro H. inv_some H. exists IdNull, (PError invalid_request). split; [reflexivity|]. split; [exact I | apply invalid_request_ok].
+Qed.
+
+Lemma entry_responses_in t c es f :
+  In f (entry_responses t c es) -> exists e, In e es /\ entry_response t c e = Some f.
+Proof.
+  unfold entry_responses. intro H. apply in_flat_map in H as (e & He & Hf). exists e. split; [exact He|].
+  destruct (entry_response t c e) as [f'|]; cbn [opt_list] in Hf; [|destruct Hf].
+  destruct Hf as [<- | []]. reflexivity.
+Qed.
+
+(* the array of a batch reads back (with the model's own array reader) as exactly the entries' responses, each of
+   which is a well-formed response object *)
+Lemma c02_array_reads_back t c es :
+  handlers_wf h -> panics_only_blocking reg h ->
+  let rs := entry_responses t c es in
+  rs <> [] -> array_elems (array_of rs) = Some rs /\ Forall wellformed_response rs.
+Proof.
+  intros Hw _. cbv zeta. intro Hne.
+  assert (HS : forall f, In f (entry_responses t c es) -> exists i p, f = mk_response i p /\ wf_id i /\ payload_ok p).
+  { intros f Hf. destruct (entry_responses_in t c es f Hf) as (e & _ & He). apply (entry_response_shape t c e f Hw He). }
+  split.
+  - apply array_of_elems; [exact Hne|]. apply Forall_forall. intros f Hf.
+    destruct (HS f Hf) as (i & p & -> & Wi & Wp). apply mk_response_span_ok; assumption.
+  - apply Forall_forall. intros f Hf. destruct (HS f Hf) as (i & p & -> & Wi & Wp).
+    apply (is_response_wellformed _ i p Wi Wp). apply mk_response_is_response; assumption.
+Qed.
+
+End Facts.
+
+(* ====================================================================== *)
+(* witnesses                                                              *)
+(* ====================================================================== *)
+
+Definition ex_reg (m : bytes) : option mkind :=
+  if bytes_eqb m b#"sub" then Some KSub else if bytes_eqb m b#"boom" then Some KBlocking else if bytes_eqb m b#"echo" then Some KSync else None.
+Definition ex_h (m : bytes) (p : option bytes) : hres :=
+  if bytes_eqb m b#"sub" then HOk b#"7" else if bytes_eqb m b#"boom" then HPanic else HOk (match p with Some x => x | None => b#"null" end).
+Definition ex_cfg : scfg := {| sc_max_response := 10485760; sc_batch := BUnlimited |}.
+
+Definition ex_sub_call : bytes := b#"{""jsonrpc"":""2.0"",""id"":1,""method"":""sub""}".
+Definition ex_sub_batch : bytes := b#"[{""jsonrpc"":""2.0"",""id"":1,""method"":""sub""}]".
+Definition ex_sub_resp : bytes := b#"{""jsonrpc"":""2.0"",""id"":1,""result"":7}".
+
+(* KNOWN FINDING ws-batch-entry-calls-subscription-method: the response to the subscribe call is written to the
+   connection by accept() and appended to the array as well *)
+Lemma c02_sub_refuted :
+  exists reg h c b body es,
+    sniff Ws b = Some (false, body) /\ batch_elems body = Some es /\ KnownClass_C02_sub reg Ws es /\
+    o_frames (handle reg h Ws c b) = [ex_sub_resp; array_of [ex_sub_resp]].
+Proof.
+  exists ex_reg, ex_h, ex_cfg, ex_sub_batch, ex_sub_batch, [ex_sub_call].
+  split; [vm_compute; reflexivity|]. split; [vm_compute; reflexivity|]. split; [|vm_compute; reflexivity].
+  split; [reflexivity|]. exists ex_sub_call, {| rq_id := IdNum 1; rq_method := b#"sub"; rq_params := None |}.
+  split; [left; reflexivity|]. split; vm_compute; reflexivity.
+Qed.
+
+(* HISTORY (repaired by "fix: only JSON objects are read as batch entries"): the unguarded loop read an ARRAY entry
+   through the sequence form of the derived struct visitors and ran the call *)
+Lemma c02_seq_refuted_old :
+  exists e r, is_object_text e = false /\ classify_entry_old e = ECall r /\ rq_method r = b#"echo" /\
+              KnownClass_C02_seq [e] /\ classify_entry e = EInvalid IdNull.
+Proof.
+  exists b#"[""2.0"",5,""echo"",[1]]", {| rq_id := IdNum 5; rq_method := b#"echo"; rq_params := Some b#"[1]" |}.
+  split; [reflexivity|]. split; [vm_compute; reflexivity|]. split; [reflexivity|]. split; [|vm_compute; reflexivity].
+  exists b#"[""2.0"",5,""echo"",[1]]". split; [left; reflexivity|]. split; [reflexivity|]. vm_compute. discriminate.
 Qed.
